@@ -23,11 +23,37 @@ def run(tier, build_dir, name="xsim"):
         out["undecided"] = name + ": " + str(e)
         return out
     os.makedirs(build_dir, exist_ok=True)
+    # `//@stubcrate name=N file=REL`: an executable stub of an external crate, compiled to an rlib and passed with --extern
+    # `//@aux dst=REL src=REPO_REL`: a real source file of /repo copied verbatim next to the unit (for `mod x;` declarations)
+    tmpl_text = open(os.path.join(ROOT, "contracts", name + ".rs")).read()
+    externs = []
+    for m in re.finditer(r"^//@stubcrate name=(\w+) file=(\S+)\s*$", tmpl_text, flags=re.M):
+        cname, rel = m.group(1), m.group(2)
+        lib = os.path.join(build_dir, "lib%s_%s.rlib" % (cname, name))
+        pc = subprocess.run(["rustc", "--edition", "2021", "-O", "-A", "warnings", "--crate-type", "rlib", "--crate-name", cname,
+                             os.path.join(ROOT, "contracts", rel), "-o", lib], capture_output=True, text=True, timeout=600)
+        if pc.returncode != 0:
+            out["undecided"] = name + ": stub crate %s does not compile: %s" % (cname, pc.stderr[-400:])
+            return out
+        externs += ["--extern", "%s=%s" % (cname, lib)]
+    aux_info = {}
+    for m in re.finditer(r"^//@aux dst=(\S+) src=(\S+)\s*$", tmpl_text, flags=re.M):
+        dst, rel = m.group(1), m.group(2)
+        try:
+            data = open(os.path.join(U.REPO, rel)).read()
+        except OSError as e:
+            out["undecided"] = name + ": cannot read %s: %s" % (rel, e)
+            return out
+        dpath = os.path.join(build_dir, dst)
+        os.makedirs(os.path.dirname(dpath), exist_ok=True)
+        open(dpath, "w").write(data)
+        aux_info["aux:" + dst] = {"src": rel, "repo_lines": [1, data.count("\n") + 1]}
     src = os.path.join(build_dir, name + "_unit.rs")
     binp = os.path.join(build_dir, name + "_bin")
     open(src, "w").write(asm.text)
     out["items"] = {k: {"src": v["src"], "repo_lines": v["repo_lines"]} for k, v in asm.items.items()}
-    p = subprocess.run(["rustc", "--edition", "2021", "-O", "-A", "warnings", src, "-o", binp], capture_output=True, text=True, timeout=600)
+    out["items"].update(aux_info)
+    p = subprocess.run(["rustc", "--edition", "2021", "-O", "-A", "warnings"] + externs + [src, "-o", binp], capture_output=True, text=True, timeout=600)
     # helper functions that /repo introduced (a refactoring that extracts a method): the functions the compiler misses are
     # cut from the same source files, with their enclosing impl header, and appended - still the real text, still no rule
     added = []
@@ -60,7 +86,7 @@ def run(tier, build_dir, name="xsim"):
         marker = "// ------------------------------------------------------------------ hierarchies"
         text += "\n" + "\n".join(extra) + "\n"
         open(src, "w").write(text)
-        p = subprocess.run(["rustc", "--edition", "2021", "-O", "-A", "warnings", src, "-o", binp], capture_output=True, text=True, timeout=600)
+        p = subprocess.run(["rustc", "--edition", "2021", "-O", "-A", "warnings"] + externs + [src, "-o", binp], capture_output=True, text=True, timeout=600)
     out["helpers_added"] = added
     if p.returncode != 0:
         errs = [ln for ln in p.stderr.split("\n") if ln.startswith("error")]
